@@ -213,8 +213,14 @@ class StoreBackendMixin(object):
                             f"exception. Exception: {e}.",
                             FutureWarning,
                         )
+                        # The temporary file holds a truncated pickle: do not
+                        # let it be moved to its final name.
+                        raise
 
             self._concurrency_safe_write(item, filename, write_func)
+        except PicklingError:
+            # Already reported above; nothing has been stored.
+            pass
         except Exception as e:  # noqa: E722
             warnings.warn(
                 "Unable to cache to disk. Possibly a race condition in the "
